@@ -57,13 +57,14 @@ def build_tus(cfgs, families, type_filter=None, header_extra=(), tier="quick"):
         try:
             js, missing = tu.build()
             return {"cfg": cfg.name, "named": cfg.named, "type": vt.name, "fam": fam, "json": js,
-                    "missing": missing, "tier": tier, "prop": PROP[0], "override": OVERRIDE[0]}
+                    "missing": missing, "tier": tier, "prop": PROP[0], "override": OVERRIDE[0], "keytag": KEYTAG[0]}
         except Broken as e:
             return {"cfg": cfg.name, "type": vt.name, "fam": fam, "broken": str(e)}
     return pmap(b, tus)
 
 
 PROP = [None]
+KEYTAG = [None]
 
 
 def _vt_by_name(name):
@@ -197,6 +198,8 @@ def analyse_job(job):
         if getattr(inst, "clause", None) and not job.get("override"):
             key["clause"] = inst.clause
         ks = json.dumps(key, sort_keys=True)
+        if job.get("keytag") and "clause" not in key:
+            key["clause"] = job["keytag"]       # (after ks: the missing-wrapper keys carry no tag)
         if ks not in miss and getattr(inst, "subst", None) is not None:
             # shared wrapper: missing is recorded under the first instance's key
             for k2, msg2 in job["missing"]:
@@ -242,9 +245,30 @@ def analyse_job(job):
                 import common as _cm
                 kf = _cm.match_known(prop, dict(key, detail=detail or "", rule=rule or "",
                                                witness=json.dumps(wit, sort_keys=True)))
-                if kf and kf.get("avoid_inputs"):
-                    av = kf["avoid_inputs"]
+                if kf and (kf.get("avoid_inputs") or kf.get("search_domains")):
+                    av = kf.get("avoid_inputs", {})
+                    doms = kf.get("search_domains")
                     old_ok = getattr(inst, "env_ok", None)
+
+                    def in_dom(dm, vals, names, vt=vt):
+                        """every lane of every named argument satisfies the finding's re-search domain:
+                        {"arg": {"fp_biased_exp": [lo, hi]} | {"signed": [lo, hi]}}"""
+                        for nm, pr in dm.items():
+                            if nm not in names:
+                                continue
+                            x = vals[names.index(nm)]
+                            for i in range(vt.n):
+                                ln = (x >> (i * vt.eb)) & ((1 << vt.eb) - 1)
+                                if "fp_biased_exp" in pr:
+                                    mb = 23 if vt.eb == 32 else 52
+                                    be = (ln >> mb) & ((1 << (vt.eb - 1 - mb)) - 1)
+                                    if not (pr["fp_biased_exp"][0] <= be <= pr["fp_biased_exp"][1]):
+                                        return False
+                                if "signed" in pr:
+                                    sv = ln - (1 << vt.eb) if ln >> (vt.eb - 1) else ln
+                                    if not (pr["signed"][0] <= sv <= pr["signed"][1]):
+                                        return False
+                        return True
 
                     def ok2(vals, names, av=av, old_ok=old_ok, vt=vt):
                         if old_ok is not None:
@@ -257,15 +281,26 @@ def analyse_job(job):
                                 lanes = [(x >> (i * vt.eb)) & ((1 << vt.eb) - 1) for i in range(max(1, x.bit_length() // vt.eb + 1))]
                                 if any(int(b, 16) in lanes for b in bad):
                                     return False
+                        if doms is not None:
+                            key_ = "%d" % vt.eb
+                            dl = doms.get(key_, doms.get("any", []))
+                            if not any(in_dom(dm, vals, names) for dm in dl):
+                                return False
                         return True
                     inst.env_ok = ok2
                     try:
                         v2, d2, r2, w2 = j(ctx, inst, S)
                     finally:
                         inst.env_ok = old_ok
-                    if v2 == REFUTED and not _cm.match_known(prop, dict(key, detail=d2 or "", rule=r2 or "",
-                                                                         witness=json.dumps(w2, sort_keys=True))):
+                    # a refutation found inside the finding's search_domains is by construction not the
+                    # listed finding (the listed ranges lie outside them)
+                    if v2 == REFUTED and (doms is not None or not _cm.match_known(
+                            prop, dict(key, detail=d2 or "", rule=r2 or "", witness=json.dumps(w2, sort_keys=True)))):
+                        key["clause"] = key.get("clause", "value") + "+outside-known-finding"
                         v, detail, rule, wit = v2, d2, r2, w2
+                    elif v2 == REFUTED:
+                        # the re-search landed on another listed finding: report that one too
+                        out.append((dict(key, also="second finding on the same instance"), v2, d2, r2, w2))
         except Broken:
             raise
         except T.TooBig as e:
@@ -287,6 +322,7 @@ def run_families(res, cfgs, families, type_filter=None, override=None, keytag=No
     PROP[0] = res.prop
     OVERRIDE[0] = override
     UBMODE[0] = ubmode
+    KEYTAG[0] = keytag
     jobs = build_tus(cfgs, families, type_filter, tier=tier or res.tier)
     # identical IR across configurations is analysed once
     results = procmap(analyse_job, jobs)
